@@ -97,6 +97,13 @@ func (w *World) woStore(loc string) *woResult {
 	if n != 1 || hit == nil || hit.Parent() != al.Parent() {
 		return nil
 	}
+	// "written once" is per object: a store inside a loop that the variable was declared
+	// outside of runs once per iteration on ONE variable (var conn net.Conn; for { conn = … ;
+	// go func() { … conn … }() }) — every closure made in the loop then reads whatever the
+	// latest iteration stored
+	if storeRepeatsPerObject(hit, al) {
+		return nil
+	}
 	if hitKey == w.locKey(al) {
 		return nil // the whole object assigned: not the pattern
 	}
@@ -950,4 +957,33 @@ func (w *World) structLeaves(v ssa.Value, depth int) ([]structLeaf, bool) {
 		return out, true
 	}
 	return nil, false
+}
+
+// storeRepeatsPerObject: the store can execute again without the variable having been
+// allocated anew in between — it sits on a cycle of the control-flow graph that does not pass
+// through the allocation.
+func storeRepeatsPerObject(st *ssa.Store, al *ssa.Alloc) bool {
+	sb, ab := st.Block(), al.Block()
+	if sb == nil || ab == nil || st.Parent() != al.Parent() {
+		return false
+	}
+	if sb == ab {
+		// same block: a repetition of the block repeats the allocation too (the alloc comes first)
+		return false
+	}
+	seen := map[*ssa.BasicBlock]bool{ab: true}
+	stack := append([]*ssa.BasicBlock{}, liveSuccs(sb)...)
+	for len(stack) > 0 {
+		x := stack[len(stack)-1]
+		stack = stack[:len(stack)-1]
+		if seen[x] {
+			continue
+		}
+		seen[x] = true
+		if x == sb {
+			return true
+		}
+		stack = append(stack, liveSuccs(x)...)
+	}
+	return false
 }
